@@ -268,9 +268,10 @@ class Thresholds(Harness):
     def expected_notes(self, kt, size, ca_size):
         """independent spec of the size notes for host-key type kt"""
         cert = '-cert-' in kt
-        ecc = kt.startswith('ssh-ed25519') or kt.startswith('ecdsa-sha2-nistp')
+        # RSA thresholds (2048/3072) apply to RSA/DSA-style moduli only; Edwards and NIST curve keys use the elliptic-curve thresholds (224/256)
+        ecc = kt.startswith('ssh-ed25519') or kt.startswith('ssh-ed448') or kt.startswith('ecdsa-sha2-nistp')
         good, warn, wtxt = (256, 224, WECC) if ecc else (3072, 2048, W2K)
-        ca_ecc = self.ca_type.startswith('ssh-ed25519') or self.ca_type.startswith('ecdsa-sha2-nistp')
+        ca_ecc = self.ca_type.startswith('ssh-ed25519') or self.ca_type.startswith('ssh-ed448') or self.ca_type.startswith('ecdsa-sha2-nistp')
         cgood, cwarn, cwtxt = (256, 224, WECC) if ca_ecc else (3072, 2048, W2K)
         f, w = [], []
         sz = size
@@ -483,9 +484,9 @@ def tasks(tier):
             T.append(ProbeSequence(kexname, order))
     T.append(adjust_unbounded)
     fam = ['ssh-rsa', 'rsa-sha2-256', 'rsa-sha2-512']
-    for kts in ([('ssh-rsa',), ('rsa-sha2-512', 'ssh-rsa'), tuple(fam), ('rsa-sha2-256',), ('ssh-ed25519',), ('ssh-rsa', 'ssh-ed25519')] if q else
+    for kts in ([('ssh-rsa',), ('rsa-sha2-512', 'ssh-rsa'), tuple(fam), ('rsa-sha2-256',), ('ssh-ed25519',), ('ssh-rsa', 'ssh-ed25519'), ('ssh-ed448',), ('ecdsa-sha2-nistp384',)] if q else
                 [('ssh-rsa',), ('rsa-sha2-256',), ('rsa-sha2-512',), ('rsa-sha2-512', 'ssh-rsa'), ('ssh-rsa', 'rsa-sha2-256'), tuple(fam), tuple(reversed(fam)),
-                 ('ssh-ed25519',), ('ssh-rsa', 'ssh-ed25519'), ('ecdsa-sha2-nistp256',), ('ssh-dss',)]):
+                 ('ssh-ed25519',), ('ssh-rsa', 'ssh-ed25519'), ('ecdsa-sha2-nistp256',), ('ssh-dss',), ('ssh-ed448',), ('ecdsa-sha2-nistp384',), ('ecdsa-sha2-nistp521', 'ssh-ed448')]):
         for nd in ((3, 4) if q else (1, 3, 4, 5)):
             T.append(Thresholds(kts, '', nd, 0))
     for kt in ('ssh-rsa-cert-v01@openssh.com', 'ssh-ed25519-cert-v01@openssh.com', 'rsa-sha2-512-cert-v01@openssh.com'):
